@@ -142,8 +142,10 @@ void preprocess_verif_mutex_lock(void *m) {
 void preprocess_verif_mutex_unlock(void *m) {
   if (!G.active || tls_tid < 0 || !G.fine) return;
   int id;
-  { std::lock_guard<std::mutex> lk(G.mu); id = G.mutex_index(m); }
-  park(K_UNLOCK, m, "U" + std::to_string(id));
+  // the real unlock has already happened (scope end): the mutex is free from now on, and this is a
+  // plain scheduling point, so that code placed between the unlock and the post can be interleaved
+  { std::lock_guard<std::mutex> lk(G.mu); id = G.mutex_index(m); G.held[id] = false; }
+  park(K_YIELD, m, "U" + std::to_string(id));
 }
 void preprocess_verif_yield(const char *where) {
   if (!G.active || tls_tid < 0 || !G.fine) return;
